@@ -11,6 +11,51 @@ from .loader import AnalysisError
 OPEN, CLOSE, PLAIN = 'OPEN', 'CLOSE', 'PLAIN'
 
 
+def fuse_two_pass(fn):
+    """A producer loop that appends exactly one value per iteration to a local list, followed by a consumer loop over that
+    list, is one loop: the consumer's body runs right after the append with its variable bound to the appended value
+    (the consumer's constant initialisers move in front).  Returns a copy of the function with the loops fused, or fn."""
+    import copy
+    loops = [s for s in fn.body if isinstance(s, ast.For)]
+    if len(loops) != 2:
+        return fn
+    L1, L2 = loops
+    i1, i2 = fn.body.index(L1), fn.body.index(L2)
+    if not (isinstance(L2.iter, ast.Name) and isinstance(L2.target, ast.Name) and not L2.orelse and not L1.orelse):
+        return fn
+    lst = L2.iter.id
+    # the list: initialised [] before L1, appended once at the top level of L1's body, not read in L1
+    init_ok = any(isinstance(s, ast.Assign) and len(s.targets) == 1 and isinstance(s.targets[0], ast.Name) and s.targets[0].id == lst
+                  and isinstance(s.value, ast.List) and not s.value.elts for s in fn.body[:i1])
+    apps = [(k, s) for k, s in enumerate(L1.body) if isinstance(s, ast.Expr) and isinstance(s.value, ast.Call) and isinstance(s.value.func, ast.Attribute)
+            and s.value.func.attr == 'append' and isinstance(s.value.func.value, ast.Name) and s.value.func.value.id == lst and len(s.value.args) == 1]
+    uses = sum(1 for st in L1.body for x in ast.walk(st) if isinstance(x, ast.Name) and x.id == lst)
+    if not init_ok or len(apps) != 1 or uses != 1:
+        return fn
+    between = fn.body[i1 + 1:i2]
+    if not all(isinstance(s, ast.Assign) and isinstance(s.value, (ast.Constant, ast.List)) and not getattr(s.value, 'elts', []) for s in between):
+        return fn
+    # the consumer must not touch the producer's variables
+    w1 = {x.id for st in L1.body for x in ast.walk(st) if isinstance(x, ast.Name) and isinstance(x.ctx, ast.Store)} | {x.id for x in ast.walk(L1.target) if isinstance(x, ast.Name)}
+    w2 = {x.id for st in L2.body for x in ast.walk(st) if isinstance(x, ast.Name) and isinstance(x.ctx, ast.Store)}
+    if L2.target.id in w2:
+        return fn
+    r2 = {x.id for st in L2.body for x in ast.walk(st) if isinstance(x, ast.Name)}
+    r1 = {x.id for st in L1.body for x in ast.walk(st) if isinstance(x, ast.Name)}
+    if (w1 & (r2 - {L2.target.id})) or (w2 & r1):
+        return fn
+    k, app = apps[0]
+    bind = ast.Assign(targets=[ast.Name(id=L2.target.id, ctx=ast.Store())], value=app.value.args[0])
+    new_body = L1.body[:k] + [bind] + copy.deepcopy(L2.body) + L1.body[k + 1:]
+    fused = ast.For(target=L1.target, iter=L1.iter, body=new_body, orelse=[])
+    fn2 = copy.copy(fn)
+    fn2.body = fn.body[:i1] + between + [fused] + fn.body[i2 + 1:]
+    for n in ast.walk(fused):
+        if not hasattr(n, 'lineno'):
+            n.lineno, n.col_offset, n.end_lineno, n.end_col_offset = L1.lineno, 0, L1.lineno, 0
+    return fn2
+
+
 def find_loop(fn):
     loops = [s for s in fn.body if isinstance(s, ast.For)]
     if len(loops) != 1:
@@ -182,7 +227,7 @@ class ReaderTable:
     """(in_tie, token decoration) -> (k_before_emit, total_inc, in_tie', problems)"""
     def __init__(self, func, decorations, resolver=None):
         self.func = func
-        fn = func.node
+        fn = fuse_two_pass(func.node)
         params = [a.arg for a in fn.args.args]
         self.tokp = params[0]
         loop = find_loop(fn)
@@ -193,15 +238,23 @@ class ReaderTable:
         self.states = [k for k, v in inits.items() if isinstance(v, ast.Constant) and isinstance(v.value, bool)]
         self.counters = [k for k, v in inits.items() if isinstance(v, ast.Constant) and isinstance(v.value, int) and not isinstance(v.value, bool)]
         self.lists = [k for k, v in inits.items() if isinstance(v, ast.List) and not v.elts]
+        used_lists = {x.id for st in loop.body for x in ast.walk(st) if isinstance(x, ast.Name)}
+        self.lists = [k for k in self.lists if k in used_lists]          # lists the loop does not touch are not its output
         used_states = [s for s in self.states if any(isinstance(x, ast.Name) and x.id == s for st in loop.body for x in ast.walk(st))]
         self.states = used_states
-        if len(self.states) > 1 or len(self.counters) != 1 or len(self.lists) != 2:
+        # the element list may be produced separately, one entry per token: [f(tok) for tok in tokens]
+        self.outer_elems = []
+        for k_, v_ in inits.items():
+            if isinstance(v_, ast.ListComp) and len(v_.generators) == 1 and not v_.generators[0].ifs and isinstance(v_.generators[0].iter, ast.Name) \
+                    and v_.generators[0].iter.id == self.tokp:
+                self.outer_elems.append(k_)
+        if len(self.states) > 1 or len(self.counters) != 1 or len(self.lists) + len(self.outer_elems) != 2 or not self.lists:
             raise Unknown('tie reader state not recognised (states=%s counters=%s lists=%s)' % (self.states, self.counters, self.lists))
         self.rank = self.counters[0]
         self.rank_init = inits[self.rank].value
         self.state_init = inits[self.states[0]].value if self.states else False
         rets = [s for s in fn.body if isinstance(s, ast.Return)]
-        if not rets or not isinstance(rets[-1].value, ast.Tuple) or sorted(getattr(e, 'id', '') for e in rets[-1].value.elts) != sorted(self.lists):
+        if not rets or not isinstance(rets[-1].value, ast.Tuple) or sorted(getattr(e, 'id', '') for e in rets[-1].value.elts) != sorted(self.lists + self.outer_elems):
             raise Unknown('tie reader does not return its two lists')
         self.ret_order = [e.id for e in rets[-1].value.elts]
         self.table = {}
@@ -246,7 +299,7 @@ class ReaderTable:
                 if not problems:
                     if len(emits) != 1:
                         problems.append('records %d ranks for one entry' % len(emits))
-                    if len(elems) != 1:
+                    if len(elems) + len(self.outer_elems) != 1:
                         problems.append('records %d elements for one entry' % len(elems))
                 self.table[(s, dec)] = (emits[0] if emits else 0, total, env.get(st, False) if st else False, problems)
 
@@ -269,8 +322,8 @@ def explore(wtable, winit, reader, check_writer=True):
     start = (winit, reader.state_init, 0, True)     # writer state, reader state, incs pending since last emit, first?
     todo = [(start, ())]
     trans = 0
-    if reader.rank_init != 1:
-        viol.append(('reader', 'ranks start at %r, not 1' % (reader.rank_init,), ()))
+    if not isinstance(reader.rank_init, int):
+        viol.append(('reader', 'ranks start at %r, not at an integer' % (reader.rank_init,), ()))
     while todo:
         state, trace = todo.pop()
         if state in seen:
@@ -317,8 +370,8 @@ def explore(wtable, winit, reader, check_writer=True):
                     continue
                 got = pending + kbefore
                 if first:
-                    if got != 0:
-                        viol.append(('agree', 'first entry does not get the initial rank', step))
+                    if reader.rank_init + got != 1:
+                        viol.append(('agree', 'first entry gets rank %d, not 1' % (reader.rank_init + got), step))
                 else:
                     want = 0 if w else 1      # same group as the previous entry iff the writer was inside a tie
                     if got != want:
